@@ -871,7 +871,8 @@ def run_c05(ctx, replay_path=None):
 COMMON = dict(level="proof",
               technique="Lean 4 proofs about an executable model of server::l2cap_input/l2cap_output and the attribute access functions + differential correspondence with real server types (ASan/UBSan, exactly-sized heap buffers)",
               assumptions=["servers without fixed handles / includes / secondary services / priorities (handle = index + 1)",
-                           "user handlers obey their documented contract (out_size <= read_size); the harness's handlers do",
+                           "user handlers obey their documented contract (out_size <= read_size; HandlersOk); the harness's handlers do (handlersOk_std)",
+                           "tables / states are well-formed (decidable TableWF / StateWF: what the C++ types guarantee by construction); evaluated by the model driver on every table dumped from the real templates and every initial state",
                            "Prepare/Execute Write with a write queue are exercised on the real code only (attwq models them)"])
 
 T = "BluetoeModel.AttAccess."
